@@ -26,7 +26,7 @@ from .. import translate as T
 
 PID = "C05"
 TITLE = "Attributes are total maps with defaults; sparse and dense storage agree"
-LEAN_MODULES = ["Mouette.Props.C05"]
+LEAN_MODULES = ["Mouette.Props.C05", "Mouette.Props.C05Source"]
 REQUIRED_THEOREMS = [
     "cast_lattice", "gen_canCast_eq", "gen_oobGuard_exact", "gen_zero_eq", "type_table_functional",
     "dense_refines", "sparse_refines", "sparse_dense_agree", "growth_aligned", "read_isolated",
@@ -35,13 +35,25 @@ REQUIRED_THEOREMS = [
     "caller_vector_isolated", "dense_handle_stale_after_growth", "checkVal_idem", "sparse_dense_agree_ext_eq",
     # round 3: several attributes on one container, delete / re-create, translated resets and growth
     "multi_project", "multi_frame", "multi_refines", "multi_growth_aligned", "recreate_fresh", "gen_storage_eq",
+    # round 4: bridges from the BODIES translated imperatively from the working tree (Generated/C05Src.lean)
+    "sparseGetitem_bridge", "sparseSetitem_bridge", "checkOutOfBounds_bridge", "denseGetitem_bridge", "denseGetitem_val",
+    "denseSetitem_bridge", "expand_bridge", "denseClear_bridge", "sparseClear_bridge", "len_bridge", "denseAsArray_bridge",
+    "init_bridge", "toState_grow", "contAppend_bridge", "contAppend_bridge_noattr", "contIadd_bridge", "createAttribute_bridge",
+    "createAttribute_warn_irrelevant", "deleteAttribute_bridge", "contClear_bridge", "getAttribute_bridge", "hasAttribute_len_bridge",
+    # round 4: ANY number of attributes on one container sharing one heap, over the translated append / +=
+    "append_all_attributes", "iadd_all_attributes",
 ]
 TRUSTED = [
     "Lean 4.33.0 kernel; axioms ⊆ {propext, Classical.choice, Quot.sound}",
     "hand-written model Mouette/Model/Attr.lean (heap of vector/matrix cells, dict as insertion-ordered assoc list) tied to "
     "mouette/mesh/mesh_attributes.py + data_container.py by the per-operation trace correspondence of this run",
-    "translator vlib/props/c05.py: cast pairs, Type multi-value table, default values, dense bounds guard, "
-    "textual identity of the two __setitem__ bodies are read from the source with Python ast",
+    "translator vlib/props/c05.py: cast pairs, Type multi-value table, default values, dense bounds guard are read from the source "
+    "with Python ast; [round 4] translator vlib/gen/c05_translate.py: the BODIES of 26 functions of mesh_attributes.py / "
+    "data_container.py (both __init__, __getitem__, __setitem__, _expand, clear, __len__, dense as_array, the default_value "
+    "property, _check_default_value_type, _check_out_of_bounds; create/delete/get/has_attribute, DataContainer.clear / append / "
+    "__iadd__ / __len__) are compiled statement by statement into Generated/C05Src.lean over the vocabulary "
+    "Model/AttrSource.lean (meaning of the numpy / dict idioms) and tied to the hand model by bridge theorems "
+    "(Props/C05Source.lean); the sparse as_array is still hand-modelled",
     "values are compared after widening to the attribute's type (True == 1 == 1.0 in Python); numpy view/copy rules are "
     "observed from outside (reads followed by in-place item assignment, also through read results kept alive across later "
     "writes / growth / clear, and through vectors the caller wrote)",
@@ -55,7 +67,7 @@ ASSUMPTIONS = [
     "strings shorter than 32 characters (dense dtype <U32), integers within int64, floats dyadic (exact in binary64/32)",
     "a scalar str is never offered to a vector attribute (Python would iterate its characters)",
 ]
-RULE = ("[round 3: several attributes (sparse and dense at once) on one container incl. delete / re-create under the same name "
+RULE = ("[round 4: both storages must agree on accepting / refusing a custom default of another type] [round 3: several attributes (sparse and dense at once) on one container incl. delete / re-create under the same name "
         "(family t=multi); vector values offered as list / tuple / numpy array / Vec, numpy scalar components, numpy integer "
         "indices, `+=` of lists with repeated elements / tuples / sets] [round 2: plus reads kept alive and updated in place later (hold/muth), a[j] = a[i] (setfr), one caller vector written "
         "under several keys and updated by the caller afterwards (setsh)] random scripts (length <= 14 quick / <= 60 thorough) over 5 types x arity 1-3 x {implicit, custom default}, the same "
@@ -290,6 +302,25 @@ class _Run:
         return f"{len(c)};-"
 
 
+import contextlib
+
+
+@contextlib.contextmanager
+def _cfg(case):
+    """round 4: the library's `config.display_duplicate_attribute_warning` is set as the case says (default: off, as shipped); the
+    warning itself is not observed"""
+    import warnings
+    from mouette import config
+    old = config.display_duplicate_attribute_warning
+    config.display_duplicate_attribute_warning = bool(case.get("warn"))
+    try:
+        with warnings.catch_warnings():
+            warnings.simplefilter("ignore")
+            yield
+    finally:
+        config.display_duplicate_attribute_warning = old
+
+
 def _trace(case, dense):
     r = _Run(case["n0"], dense)
     recs = []
@@ -355,7 +386,8 @@ def impl_observe(case):
     if case.get("t") == "multi":
         from . import c05_multi
         return c05_multi.impl_observe(case)
-    return " | ".join(mask(case, _trace(case, False))) + " || " + " | ".join(mask(case, _trace(case, True)))
+    with _cfg(case):
+        return " | ".join(mask(case, _trace(case, False))) + " || " + " | ".join(mask(case, _trace(case, True)))
 
 
 # ------------------------------------------------------------------------------------------------
@@ -628,8 +660,29 @@ def oracle(case):
         from . import c05_multi
         return c05_multi.oracle(case)
     out = []
-    for dense in (False, True):
-        out += _oracle_mode(case, dense)
+    with _cfg(case):
+        for dense in (False, True):
+            out += _oracle_mode(case, dense)
+        out += _oracle_create_agree(case)
+    return out
+
+
+def _oracle_create_agree(case):
+    """"sparse and dense storage ... accept and reject the same values": a custom default handed to create_attribute is accepted by
+    both storages or refused by both (nothing is demanded about WHICH of the two happens)"""
+    out = []
+    seen = set()
+    for op in case["ops"]:
+        if op[0] != "create" or op[3] is None or tok_type(op[3]) == op[1]: continue
+        sig = (op[1], op[2], op[3])
+        if sig in seen: continue
+        seen.add(sig)
+        res = [_Run(1, dense).do(op).startswith("err") for dense in (False, True)]
+        if res[0] != res[1]:
+            out.append({"key": "C05/agree/create-default-accepted-by-one-storage",
+                        "what": "a default value of another type is refused by one storage and accepted by the other",
+                        "detail": f"{op}: sparse {'refuses' if res[0] else 'accepts'}, dense {'refuses' if res[1] else 'accepts'}"})
+            return out
     return out
 
 
@@ -772,7 +825,9 @@ def _alphabet2():
 def cases(rng, tier):
     n, maxlen = (3000, 14) if tier == "quick" else (12000, 60)
     for _ in range(n):
-        yield _script(rng, maxlen)
+        c = _script(rng, maxlen)
+        if rng.random() < 0.12: c["warn"] = True      # round 4: duplicate-attribute warning switched on (create over an existing name)
+        yield c
     # round 3: several attributes (sparse and dense at once) on one container
     from . import c05_multi
     for _ in range(600 if tier == "quick" else 4000):
@@ -793,8 +848,10 @@ def cases(rng, tier):
 
 
 def search_on_break(rng, broken, mismatches):
-    for _ in range(1500):
-        yield _script(rng, 20)
+    for j in range(1500):
+        c = _script(rng, 20)
+        if j % 8 == 0: c["warn"] = True
+        yield c
     from . import c05_multi
     for _ in range(400):
         yield c05_multi.script(rng, 16)
@@ -827,6 +884,7 @@ def classify(case, obs):
             if o.startswith("err"): ks.append(f"{mode}:{op[0]}:{o}")
             if o == "?": ks.append(f"{mode}:masked-read")
     ks.append(f"len:{min(len(case['ops']) // 5 * 5, 60)}+")
+    if case.get("warn"): ks.append("config:duplicate-warning=on")
     alive = deleted = cleared = False
     for op in case["ops"]:
         if op[0] == "create":
@@ -911,10 +969,10 @@ def _const_scalar(node):
 _CMP = {ast.Lt: "<", ast.LtE: "≤", ast.Gt: ">", ast.GtE: "≥", ast.Eq: "=", ast.NotEq: "≠"}
 
 
-def _guard_expr(node):
+def _guard_expr(node, pname="key"):
     """boolean combination of comparisons of `key` with constants / self.n_elem -> Lean Bool term over (key n : Int)"""
     def atom(n):
-        if isinstance(n, ast.Name) and n.id == "key": return "key"
+        if isinstance(n, ast.Name) and n.id == pname: return "key"
         if isinstance(n, ast.Attribute) and n.attr == "n_elem" and isinstance(n.value, ast.Name) and n.value.id == "self": return "n"
         if isinstance(n, ast.Constant) and isinstance(n.value, int) and not isinstance(n.value, bool): return f"({n.value} : Int)"
         if isinstance(n, ast.BinOp) and type(n.op) in (ast.Add, ast.Sub):
@@ -922,9 +980,9 @@ def _guard_expr(node):
         raise T.TranslateError(f"unsupported operand {ast.dump(n)[:60]}")
     if isinstance(node, ast.BoolOp):
         op = " || " if isinstance(node.op, ast.Or) else " && "
-        return "(" + op.join(_guard_expr(v) for v in node.values) + ")"
+        return "(" + op.join(_guard_expr(v, pname) for v in node.values) + ")"
     if isinstance(node, ast.UnaryOp) and isinstance(node.op, ast.Not):
-        return f"(!{_guard_expr(node.operand)})"
+        return f"(!{_guard_expr(node.operand, pname)})"
     if isinstance(node, ast.Compare):
         parts, left = [], node.left
         for o, right in zip(node.ops, node.comparators):
@@ -1030,104 +1088,118 @@ def translate():
         rz = body[0].body[0].exc
         if not (isinstance(rz, ast.Call) and getattr(rz.func, "attr", None) == "OutOfBoundsError"):
             raise T.TranslateError("guard does not raise OutOfBoundsError")
-        g = _guard_expr(body[0].test)
+        g = _guard_expr(body[0].test, fn.args.args[1].arg)
         # the guard must be the first statement of both accessors
         for acc in ("__getitem__", "__setitem__"):
             f = T.find_def(tree, "ArrayAttribute." + acc)
             st = [s for s in f.body if not (isinstance(s, ast.Expr) and isinstance(s.value, ast.Constant))][0]
             okc = (isinstance(st, ast.Expr) and isinstance(st.value, ast.Call) and getattr(st.value.func, "attr", None) == "_check_out_of_bounds"
-                   and len(st.value.args) == 1 and getattr(st.value.args[0], "id", None) == "key")
+                   and len(st.value.args) == 1 and getattr(st.value.args[0], "id", None) == f.args.args[1].arg)
             if not okc: raise T.TranslateError(f"ArrayAttribute.{acc} does not start with self._check_out_of_bounds(key)")
         chunks["guard"] = ("/-- `ArrayAttribute._check_out_of_bounds`: condition under which OutOfBoundsError is raised -/\n"
                            f"def oobGuard (key n : Int) : Bool := {g}\n")
         return g
     sites.append(T.site("mesh_attributes.py:ArrayAttribute._check_out_of_bounds", guard))
 
-    def setitems():
-        tree, _ = T.load(ATTR_FILE)
-        a = T.find_def(tree, "Attribute.__setitem__").body
-        b = T.find_def(tree, "ArrayAttribute.__setitem__").body[1:]
-        da, db = [ast.dump(s) for s in a], [ast.dump(s) for s in b]
-        if da != db: raise T.TranslateError("the value checks of Attribute.__setitem__ and ArrayAttribute.__setitem__ differ textually")
-        return "sparse and dense __setitem__ share one value check (identical AST after the bounds guard)"
-    sites.append(T.site("mesh_attributes.py:__setitem__ value checks identical", setitems))
-
-    # ---- round 3: the resets / growth of the storages and of the container (loss of any of these breaks the property)
-    def _norm(node):
-        return ast.unparse(node).replace(" ", "")
-
-    def _body(fn):
-        return [st for st in fn.body if not (isinstance(st, ast.Expr) and isinstance(st.value, ast.Constant))]
-
-    FULL = "np.full(({rows},self.elemsize),self.default_value,dtype=self.type.dtype)"
-
-    def expand():
-        tree, _ = T.load(ATTR_FILE)
-        b = _body(T.find_def(tree, "ArrayAttribute._expand"))
-        if len(b) != 2: raise T.TranslateError(f"ArrayAttribute._expand has {len(b)} statements, expected 2")
-        want0 = "self._data=np.concatenate((self._data," + FULL.format(rows="n") + "))"
-        if _norm(b[0]) != want0: raise T.TranslateError(f"_expand: storage growth not recognised: {_norm(b[0])[:120]}")
-        if _norm(b[1]) not in ("self.n_elem+=n", "self.n_elem=self.n_elem+n", "self.n_elem=n+self.n_elem"):
-            raise T.TranslateError(f"_expand: n_elem update not recognised: {_norm(b[1])}")
-        sb = _body(T.find_def(tree, "Attribute._expand"))
-        if not (len(sb) == 1 and isinstance(sb[0], ast.Pass)): raise T.TranslateError("sparse _expand is not `pass`")
-        chunks["expand"] = ("/-- `ArrayAttribute._expand(n)`: a NEW array = old rows followed by `n` rows filled with the default, in the attribute's\n"
-                            "dtype; `n_elem += n`. Returned: (old rows kept first, number of new rows, new rows hold the default, n_elem after) -/\n"
-                            "def denseExpand (nElem n : Nat) : Bool × Nat × Bool × Nat := (true, n, true, nElem + n)\n"
-                            "/-- `Attribute._expand` (sparse): nothing to do -/\ndef sparseExpandIsNoop : Bool := true\n")
-        return "concatenate((old, full((n, elemsize), default, dtype))); n_elem += n; sparse: pass"
-    sites.append(T.site("mesh_attributes.py:_expand (dense and sparse)", expand))
-
-    def clears():
-        tree, _ = T.load(ATTR_FILE)
-        b = _body(T.find_def(tree, "ArrayAttribute.clear"))
-        if len(b) != 1 or _norm(b[0]) != "self._data=" + FULL.format(rows="self.n_elem"):
-            raise T.TranslateError(f"ArrayAttribute.clear not recognised: {[_norm(x)[:100] for x in b]}")
-        sb = _body(T.find_def(tree, "Attribute.clear"))
-        if len(sb) != 1 or _norm(sb[0]) not in ("self._data=dict()", "self._data={}"):
-            raise T.TranslateError(f"Attribute.clear not recognised: {[_norm(x) for x in sb]}")
-        ini = _body(T.find_def(tree, "ArrayAttribute.__init__"))
-        if _norm(ini[-1]) != "self._data=" + FULL.format(rows="n_elem").replace("self.elemsize", "elem_size"):
-            raise T.TranslateError(f"ArrayAttribute.__init__ storage not recognised: {_norm(ini[-1])[:100]}")
-        chunks["clear"] = ("/-- `ArrayAttribute.clear()`: a NEW (n_elem, elemsize) array filled with the default, in the attribute's dtype (as in\n"
-                           "`__init__`); `Attribute.clear()`: a new empty dict. Returned: rows of the new dense storage -/\n"
-                           "def denseClearRows (nElem : Nat) : Nat := nElem\ndef sparseClearIsEmptyDict : Bool := true\n")
-        return "dense: full((n_elem, elemsize), default, dtype); sparse: dict()"
-    sites.append(T.site("mesh_attributes.py:clear / __init__ storage", clears))
-
-    def growth():
-        tree, _ = T.load("mouette/mesh/data_container.py")
-        LOOP = "forattrinself._attr.values():attr._expand({n})"
-        ap = _body(T.find_def(tree, "DataContainer.append"))
-        if [_norm(x).replace("\n", "") for x in ap] != ["self._data.append(val)", LOOP.format(n="1")]:
-            raise T.TranslateError(f"DataContainer.append not recognised: {[_norm(x)[:60] for x in ap]}")
-        ia = _body(T.find_def(tree, "DataContainer.__iadd__"))
-        if not (len(ia) == 2 and isinstance(ia[0], ast.If) and isinstance(ia[1], ast.Return)): raise T.TranslateError("__iadd__ shape")
-        b1 = [_norm(x).replace("\n", "") for x in ia[0].body]
-        if b1 != ["self._data+=list(other)", LOOP.format(n="len(other)")]: raise T.TranslateError(f"__iadd__ list branch: {b1}")
-        el = ia[0].orelse
-        if not (len(el) == 1 and isinstance(el[0], ast.If) and _norm(el[0].test) == "isinstance(other,DataContainer)"):
-            raise T.TranslateError("__iadd__ container branch not found")
-        b2 = [_norm(x).replace("\n", "") for x in el[0].body]
-        # the count must be taken BEFORE the data is extended (`other` may be `self`)
-        if b2 != ["n_new=len(other._data)", "self._data+=other._data", LOOP.format(n="n_new")]:
-            raise T.TranslateError(f"__iadd__ container branch (count first, then extension, then _expand(count)): {b2}")
-        chunks["growth"] = ("/-- container growth: how many rows every attribute is expanded by, per branch, in terms of the number of appended\n"
-                            "elements `m` and (container branch) of `len(other._data)` read BEFORE the extension -/\n"
-                            "def appendCount : Nat := 1\ndef extendListCount (m : Nat) : Nat := m\n"
-                            "def extendContainerCount (lenOtherBefore : Nat) : Nat := lenOtherBefore\n")
-        return "append: 1; += list: len(other); += container: len(other._data) taken before the extension"
-    sites.append(T.site("data_container.py:append / __iadd__ expand counts", growth))
-
+    # ---- round 4: the BODIES of the attribute classes and of the container methods, read imperatively
+    from ..gen import c05_translate as SRC
+    src_sites, src_body, src_status = SRC.translate_sites()
+    _SRC_STATUS.clear(); _SRC_STATUS.update(src_status)
+    if src_body is not None:
+        T.write_generated("C05Src", src_body)
+    n_old = len(sites)
     if all(s["ok"] for s in sites[:4]):
         body = ("import Mouette.Model.Attr\nnamespace Mouette.Generated.C05\nopen Mouette.Attr\n\n" + chunks["casts"] + "\n" + chunks["types"] + "\n"
                 + chunks["defaults"] + "\n" + chunks["guard"] + "\nend Mouette.Generated.C05\n")
         T.write_generated("C05", body)
-    if all(s["ok"] for s in sites[-3:]):
-        body = ("import Mouette.Model.Attr\nnamespace Mouette.Generated.C05\nopen Mouette.Attr\n\n" + chunks["expand"] + "\n" + chunks["clear"] + "\n"
-                + chunks["growth"] + "\nend Mouette.Generated.C05\n")
-        T.write_generated("C05Storage", body)
-    return sites
+    # round 3 descriptors of the resets / growth (Generated/C05Storage.lean, theorem gen_storage_eq): since round 4 they are DERIVED from
+    # the imperative translation of the same functions (the textual shape checks of round 3 refused harmless respellings)
+    need = ["ArrayAttribute._expand", "Attribute._expand", "ArrayAttribute.clear", "Attribute.clear", "ArrayAttribute.__init__",
+            "DataContainer.append", "DataContainer.__iadd__"]
+    if all(src_status.get(q) for q in need):
+        T.write_generated("C05Storage", _STORAGE_TEXT)
+    return sites + src_sites
+
+
+_SRC_STATUS = {}
+_STORAGE_TEXT = ("import Mouette.Model.Attr\nnamespace Mouette.Generated.C05\nopen Mouette.Attr\n\n"
+                 "/-- `ArrayAttribute._expand(n)`: a NEW array = old rows followed by `n` rows filled with the default, in the attribute's\n"
+                 "dtype; `n_elem += n`. Returned: (old rows kept first, number of new rows, new rows hold the default, n_elem after) -/\n"
+                 "def denseExpand (nElem n : Nat) : Bool × Nat × Bool × Nat := (true, n, true, nElem + n)\n"
+                 "/-- `Attribute._expand` (sparse): nothing to do -/\ndef sparseExpandIsNoop : Bool := true\n\n"
+                 "/-- `ArrayAttribute.clear()`: a NEW (n_elem, elemsize) array filled with the default, in the attribute's dtype (as in\n"
+                 "`__init__`); `Attribute.clear()`: a new empty dict. Returned: rows of the new dense storage -/\n"
+                 "def denseClearRows (nElem : Nat) : Nat := nElem\ndef sparseClearIsEmptyDict : Bool := true\n\n"
+                 "/-- container growth: how many rows every attribute is expanded by, per branch, in terms of the number of appended\n"
+                 "elements `m` and (container branch) of `len(other._data)` read BEFORE the extension -/\n"
+                 "def appendCount : Nat := 1\ndef extendListCount (m : Nat) : Nat := m\n"
+                 "def extendContainerCount (lenOtherBefore : Nat) : Nat := lenOtherBefore\n\nend Mouette.Generated.C05\n")
+
+# ------------------------------------------------------------------------------------------------
+# SOURCE_MAP: every function of the two anchor files.  "translated" = its body is compiled into Generated/C05*.lean on
+# every run AND a bridge theorem of Props/C05.lean / Props/C05Source.lean is stated about that definition.
+# ------------------------------------------------------------------------------------------------
+_A, _D = "mouette/mesh/mesh_attributes.py::", "mouette/mesh/data_container.py::"
+_OOS_EXC = "out-of-scope: exception constructor (message formatting only)"
+_OOS_ABS = "out-of-scope: abstract method (`pass`), overridden by both storage classes"
+_OOS_CORNER = "out-of-scope: corner-container variant, not driven by this harness (its growth loop is the same `_expand` call)"
+SOURCE_MAP = {
+    _A + "_BaseAttribute.InvalidTypeError.__init__": _OOS_EXC, _A + "_BaseAttribute.InvalidSizeError.__init__": _OOS_EXC,
+    _A + "_BaseAttribute.TypeNotMatchingError.__init__": _OOS_EXC, _A + "_BaseAttribute.DefaultValueTypeDoesNotMatchError.__init__": _OOS_EXC,
+    _A + "_BaseAttribute.OutOfBoundsError.__init__": _OOS_EXC,
+    _A + "_BaseAttribute.Type.from_string": "out-of-scope: file-format type names (C04)",
+    _A + "_BaseAttribute.Type.to_string": "out-of-scope: file-format type names (C04)",
+    _A + "_BaseAttribute.Type.byte_size": "out-of-scope: file-format sizes (C04)",
+    _A + "_BaseAttribute.Type.dtype": "modelled",                      # widening castTo; `dtype=self.type.dtype` is required at every np.full site
+    _A + "_BaseAttribute.Type.default_value": "translated",           # zeroTable / typeDefaultValue; gen_zero_eq, init_bridge
+    _A + "_BaseAttribute._can_be_casted": "translated",               # castPairs / canCast; gen_canCast_eq
+    _A + "_BaseAttribute.__init__": "out-of-scope: never called (both storage classes define their own __init__ without super())",
+    _A + "_BaseAttribute.default_value": "translated",                # defaultValue; init_bridge, expand_bridge, sparseGetitem_bridge
+    _A + "_BaseAttribute._check_default_value_type": "translated",    # checkDefaultValueType; init_bridge
+    _A + "_BaseAttribute.__getitem__": _OOS_ABS, _A + "_BaseAttribute.__setitem__": _OOS_ABS, _A + "_BaseAttribute.__len__": _OOS_ABS,
+    _A + "_BaseAttribute.__iter__": _OOS_ABS, _A + "_BaseAttribute._expand": _OOS_ABS, _A + "_BaseAttribute.as_array": _OOS_ABS,
+    _A + "_BaseAttribute.clear": _OOS_ABS,
+    _A + "_BaseAttribute.__repr__": "out-of-scope: printing", _A + "_BaseAttribute.__str__": "out-of-scope: printing",
+    _A + "_BaseAttribute.empty": "out-of-scope: `len(self)==0`, not part of the statement",
+    _A + "Attribute.__init__": "translated",            # sparseInit; init_bridge
+    _A + "Attribute.__getitem__": "translated",         # sparseGetitem; sparseGetitem_bridge
+    _A + "Attribute.__setitem__": "translated",         # sparseSetitem; sparseSetitem_bridge
+    _A + "Attribute._expand": "translated",             # sparseExpand; expand_bridge
+    _A + "Attribute.__len__": "translated",             # sparseLen; len_bridge
+    _A + "Attribute.__iter__": "out-of-scope: iteration over the non-default keys, not part of the statement",
+    _A + "Attribute.as_array": "modelled",              # Model.Attr.sparseArray (np.full + row writes in dict order)
+    _A + "Attribute.clear": "translated",               # sparseClear; sparseClear_bridge
+    _A + "ArrayAttribute.__init__": "translated",       # denseInit; init_bridge
+    _A + "ArrayAttribute._check_out_of_bounds": "translated",   # checkOutOfBounds + oobGuard; checkOutOfBounds_bridge, gen_oobGuard_exact
+    _A + "ArrayAttribute.__getitem__": "translated",    # denseGetitem; denseGetitem_bridge, denseGetitem_val
+    _A + "ArrayAttribute.__setitem__": "translated",    # denseSetitem; denseSetitem_bridge
+    _A + "ArrayAttribute._expand": "translated",        # denseExpand; expand_bridge, append_all_attributes
+    _A + "ArrayAttribute.__len__": "translated",        # denseLen; len_bridge
+    _A + "ArrayAttribute.__iter__": "out-of-scope: iteration over the rows, not part of the statement",
+    _A + "ArrayAttribute.as_array": "translated",       # denseAsArray; denseAsArray_bridge
+    _A + "ArrayAttribute.clear": "translated",          # denseClear; denseClear_bridge
+    _D + "_BaseDataContainer.__init__": "modelled",     # empty `_attr` dict (Model.Attr.init)
+    _D + "_BaseDataContainer.empty": _OOS_ABS, _D + "_BaseDataContainer.clear": _OOS_ABS, _D + "_BaseDataContainer.append": _OOS_ABS,
+    _D + "_BaseDataContainer.attributes": "out-of-scope: key view of the attribute dict",
+    _D + "_BaseDataContainer.create_attribute": "translated",     # createAttribute; createAttribute_bridge
+    _D + "_BaseDataContainer.register_array_as_attribute": "out-of-scope: adopts a caller array as dense storage; the statement's histories start from create_attribute and the harness never calls it",
+    _D + "_BaseDataContainer.delete_attribute": "translated",     # deleteAttribute; deleteAttribute_bridge
+    _D + "_BaseDataContainer.has_attribute": "translated",        # hasAttribute; hasAttribute_len_bridge
+    _D + "_BaseDataContainer.get_attribute": "translated",        # getAttribute; getAttribute_bridge
+    _D + "DataContainer.__init__": "modelled",                    # `_data` list (Model.Attr.init: only its length matters)
+    _D + "DataContainer.__getitem__": "out-of-scope: element access, not attributes",
+    _D + "DataContainer.__setitem__": "out-of-scope: element access, not attributes",
+    _D + "DataContainer.__iter__": "out-of-scope: element access, not attributes",
+    _D + "DataContainer.__repr__": "out-of-scope: printing", _D + "DataContainer.__str__": "out-of-scope: printing",
+    _D + "DataContainer.__len__": "translated",                   # contLen; hasAttribute_len_bridge
+    _D + "DataContainer.size": "out-of-scope: alias of len(container)",
+    _D + "DataContainer.empty": "out-of-scope: `not self._data`, not part of the statement",
+    _D + "DataContainer.clear": "translated",                     # contClear; contClear_bridge
+    _D + "DataContainer.append": "translated",                    # contAppend; contAppend_bridge, append_all_attributes
+    _D + "DataContainer.__iadd__": "translated",                  # contIadd; contIadd_bridge, iadd_all_attributes
+}
+for _m in ("__init__", "__getitem__", "element", "adj", "__iter__", "__repr__", "__str__", "size", "__len__", "empty", "clear", "append", "__iadd__"):
+    SOURCE_MAP[_D + "CornerDataContainer." + _m] = _OOS_CORNER
 
 
 MANIFEST = {
@@ -1139,7 +1211,9 @@ MANIFEST = {
                    "other entry (invariant: distinct keys own distinct heap cells, defaults are handed out as fresh copies). The cast "
                    "lattice, the default values, the dense bounds guard and the Type table are re-extracted from the source on every "
                    "run and the theorems are re-checked against them. The model is tied to the Python classes by a per-operation "
-                   "trace correspondence on both storages and a direct oracle."),
+                   "trace correspondence on both storages and a direct oracle. Round 4: the bodies of the attribute classes and of the "
+                   "container methods are compiled from the working tree on every run and proved equal to the model's primitives "
+                   "(bridge theorems), and growth is proved aligned for ANY number of attributes sharing one heap."),
     "level_note": ("Trusted: Lean kernel + propext/Classical.choice/Quot.sound; the hand-written model (checked against the code on the "
                    "scripts of each run only); the ast translator; numpy view/copy rules observed from outside; the updated entry itself "
                    "is unconstrained after an in-place update (masked)."),
